@@ -15,7 +15,7 @@ prop("C13", pkg="c13",
      thorough=dict(shards=16, scale=3, timeout=3000),
      technique="differential property-based testing (rapid) against a transcription of the Apache Thrift binary and compact protocol specifications "
                "(encoder and decoder written in the harness, not sharing code with the library)",
-     level_text="Exploration: ~1.28 M cases per quick run (~3.8 M thorough); Writer and Marshal output must equal the specification's bytes and every generated conformant alternative "
+     level_text="Exploration: ~0.8 M cases per quick run (~2.4 M thorough); Writer and Marshal output must equal the specification's bytes and every generated conformant alternative "
                 "encoding must be read back to the same content by the Reader methods and by Unmarshal. Deviations already listed are normalised clause by clause and "
                 "counted; any other byte difference is reported with the shrunk content tree, observed and expected bytes.",
      level_note="Trusted base: harness/thriftspec, my reading of thrift-binary-protocol.md and thrift-compact-protocol.md, limited to the clauses the property statement "
